@@ -75,6 +75,7 @@ def run(ctx):
     open(cfg, "w").write("cfg errormode prefix\n")
     rc, out = sh("cat %s %s %s | %s" % (cfg, ops, cout, driver), timeout=3000)
     langs = trees = tree_ok = tree_err = 0
+    model_ok = model_skip = model_bad = 0
     corr_cmp = corr_bad = judge_eval = judge_bad = 0
     distinct = set()
     samples = []
@@ -101,6 +102,20 @@ def run(ctx):
                 corr_bad += 1
                 ctx.violation("corr", "node-types.json of %s unreadable or not saturating: %s" % (lid, kv.get("ntwf")),
                               {"case": cid, "spec": spec, "result": kv}, fingerprint={"lang": lid, "corr": "ntwf"}, found_input=False)
+            mc = kv.get("model_closed", "")
+            if mc.startswith("ok"):
+                model_ok += 1
+            elif mc.startswith("SKIP"):
+                model_skip += 1
+            else:
+                fp = {"lang": lid, "clause": "model-closed", "var": kv.get("var", "")}
+                from checklib import match_fp
+                if not any(k.get("status") == "known" and match_fp(k.get("match", {}), fp) for k in ctx.known):
+                    model_bad += 1
+                judge_bad += 1
+                ctx.violation("judge", "the real node-types.json is not closed under the productions of grammar %s: rule %s, production %s "
+                              "(a derivable child kind / field / required / multiple flag is not admitted)" % (lid, kv.get("var"), kv.get("prod")),
+                              {"case": cid, "spec": spec, "result": kv}, fingerprint=fp)
             for k in ("judge_la", "judge_names", "judge_sup"):
                 judge_eval += 1
                 if kv.get(k) != "ok":
@@ -150,6 +165,7 @@ def run(ctx):
         if len(samples) < 6 and trees % 97 == 1:
             samples.append({"case": cid, "spec": spec[:200], "result": kv})
     ctx.oblige("corr:ports=real-functions(all states x symbols), tree-extraction=node-API", corr_bad == 0, "%d disagreements" % corr_bad)
+    ctx.oblige("model:real-node-types-are-closed", model_bad == 0, "%d grammars not closed (%d closed, %d outside the model's scope)" % (model_bad, model_ok, model_skip))
     feat_hist = {}
     for f in feats.values():
         for x in f:
@@ -162,6 +178,7 @@ def run(ctx):
                 "or a child allowed only through a supertype; distinct by hash of (grammar, document)",
         "samples": samples, "languages": langs, "trees_judged": trees, "trees_conforming": tree_ok, "trees_with_errors_skipped": tree_err,
         "grammars_rejected_or_skipped": skips[:10], "random_grammar_features": feat_hist, "document_tokens": sizes, "totals": tot,
+        "model_closed": {"closed": model_ok, "out_of_scope": model_skip, "not_closed_unexpected": model_bad},
         "correspondence": {"compared": corr_cmp, "equal": corr_cmp - corr_bad},
         "judge": {"evaluated": judge_eval, "passed": judge_eval - judge_bad},
         "impl_vs_judge_failures": judge_bad, "model_vs_impl_disagreements": corr_bad,
